@@ -83,6 +83,7 @@ type c17Data struct {
 	Home        string            `json:"home"`
 	Second      int               `json:"second_logger_lines,omitempty"`
 	SecondFirst bool              `json:"second_logger_constructed_concurrently,omitempty"`
+	Twin        bool              `json:"second_logger_same_object_name,omitempty"`
 	InitDirs    []string          `json:"initial_dirs,omitempty"`
 	Sibling     string            `json:"sibling_file,omitempty"`
 	SiblingGone bool              `json:"sibling_removed,omitempty"`
@@ -252,8 +253,16 @@ func c17Body(rc *RunCtx) {
 	second := simrt.ChanceF(1, 5)
 	var lg2 *logfile.FileLogger
 	var lg2Task *simrt.Task
+	// ... and in a quarter of them it is a twin: same object name, so both loggers append to
+	// the very same files (two components of one process, or a logger constructed twice)
+	oname2 := "second"
+	if second && simrt.ChanceF(1, 4) {
+		oname2 = d.Oname
+		d.Twin = true
+		simrt.Probe("twin_logger_same_file")
+	}
 	mk2 := func() {
-		lg2 = logfile.NewFileLogger(logfile.WithHomePath(c17Home), logfile.WithOnameLogID("second", d.LogID), logfile.WithLevel(0))
+		lg2 = logfile.NewFileLogger(logfile.WithHomePath(c17Home), logfile.WithOnameLogID(oname2, d.LogID), logfile.WithLevel(0))
 	}
 	if second && simrt.ChanceF(1, 2) {
 		lg2Task = simrt.GoNamed("construct-second", mk2)
@@ -270,7 +279,7 @@ func c17Body(rc *RunCtx) {
 		// and must carry on with the one it has.
 		left := 2
 		disk.FailOpen = func(p string, flag int) error {
-			if left == 0 || flag&simos.O_APPEND == 0 || !strings.HasPrefix(p, c17Home+"/logs/") || strings.Contains(p, "-second") || !simrt.ChanceF(1, 2) {
+			if left == 0 || flag&simos.O_APPEND == 0 || !strings.HasPrefix(p, c17Home+"/logs/") || strings.Contains(p, "-second") || d.Twin || !simrt.ChanceF(1, 2) {
 				return nil
 			}
 			left--
@@ -297,7 +306,7 @@ func c17Body(rc *RunCtx) {
 		// line being written may be lost; nothing else may be, in particular not the lines after it
 		left := 2
 		disk.FailWrite = func(p string) error {
-			if left == 0 || !strings.HasPrefix(p, c17Home+"/logs/") || strings.Contains(p, "-second") || !simrt.ChanceF(1, 6) {
+			if left == 0 || !strings.HasPrefix(p, c17Home+"/logs/") || strings.Contains(p, "-second") || d.Twin || !simrt.ChanceF(1, 6) {
 				return nil
 			}
 			left--
@@ -809,10 +818,14 @@ func c17After(rc *RunCtx, res *simrt.Result) {
 			}
 		}
 		mix(uint64(n))
+		on2 := "second"
+		if d.Twin {
+			on2 = d.Oname
+		}
 		if n != 1 {
-			viol("second-logger", fmt.Sprintf("line %s of the second logger (object name \"second\") appears %d times in the log files", tok, n))
-		} else if !strings.HasPrefix(where, d.LogID+"-second-") && where != d.LogID+"-second.log" {
-			viol("second-logger", fmt.Sprintf("line %s of the second logger (object name \"second\") was written to %s", tok, where))
+			viol("second-logger", fmt.Sprintf("line %s of the second logger (object name %q) appears %d times in the log files", tok, on2, n))
+		} else if !strings.HasPrefix(where, d.LogID+"-"+on2+"-") && where != d.LogID+"-"+on2+".log" {
+			viol("second-logger", fmt.Sprintf("line %s of the second logger (object name %q) was written to %s", tok, on2, where))
 		}
 	}
 	// retention
